@@ -102,7 +102,7 @@ class World:
                 reg._NODETYPE_REGISTRY.pop(key, None)
 
 
-DEFAULT_KIND = {'T0': 'leaf', 'T1': 'leaf', 'T2': 'namedtuple', 'T3': 'structseq', 'T4': 'list', 'T5': 'leaf'}
+DEFAULT_KIND = {'T0': 'leaf', 'T1': 'leaf', 'T2': 'namedtuple', 'T3': 'structsequence', 'T4': 'list', 'T5': 'leaf'}
 
 
 class RegistrySystem(explore.System):
@@ -369,7 +369,7 @@ def _vkey(oracle, feats):
 
 def run_shard(ctx):
     tn = TYPE_NAMES[ctx.tier]
-    depth = 3 if ctx.tier == 'quick' else 4
+    depth = 3 if ctx.tier == 'quick' else 5
     for warn_mode in ('always', 'error'):
         explore.bfs(ctx, RegistrySystem(tn, warn_mode), depth, label=f'{warn_mode}')
 
